@@ -207,10 +207,10 @@ again:
 	}()
 	select {
 	case <-doneR:
-	case <-time.After(90 * time.Second):
-		// the local run returned at once; the same read through the server has not returned after 90 s
+	case <-time.After(300 * time.Second): // (90 s until round 10: tripped once on the unchanged tree while three heavy jobs shared the machine)
+		// the local run returned at once; the same read through the server has not returned after 300 s
 		serverWedged = desc
-		add("remote-hang", "%s: the local run finished (%v) but the run against the server URL did not return within 90 s", desc, errL)
+		add("remote-hang", "%s: the local run finished (%v) but the run against the server URL did not return within 300 s", desc, errL)
 		return
 	}
 	if writerDone != nil {
